@@ -294,7 +294,8 @@ impl Report {
 
 /// open known findings for a property: (signature pattern, description)
 fn load_known(root: &str, prop: &str) -> Vec<(String, String)> {
-    let path = format!("{}/known_findings.json", root);
+    // the committed file next to the checker, whatever scratch root the evidence goes to
+    let path = std::env::var("PGV_KNOWN_FINDINGS").unwrap_or_else(|_| format!("{}/known_findings.json", root));
     let mut out = vec![];
     if let Ok(text) = std::fs::read_to_string(path) {
         if let Ok(v) = serde_json::from_str::<Value>(&text) {
